@@ -4,6 +4,8 @@ package reg
 import (
 	"log/slog"
 	"net/http"
+	"net/url"
+	"strings"
 	"sync"
 	"time"
 
@@ -126,6 +128,20 @@ func (reg *Reg) hostGet(hostname string) *config.Host {
 		reg.hosts[hostname] = newHost
 	}
 	return reg.hosts[hostname]
+}
+
+// hostByURL returns the name of the registry, or of the mirror of that registry, that serves the url.
+// A link returned by a host (pagination) is only requested from that host, with its settings and credentials.
+func (reg *Reg) hostByURL(registry string, u *url.URL) string {
+	if u == nil {
+		return registry
+	}
+	for _, name := range reg.hostGet(registry).Mirrors {
+		if strings.EqualFold(reg.hostGet(name).Hostname, u.Host) {
+			return name
+		}
+	}
+	return registry
 }
 
 // featureGet returns enabled and ok
